@@ -8,6 +8,8 @@ CONSTANTS
   DevZeroBypassesCache = TRUE
   DevWriteEvictErrLost = TRUE
   TogglePre = TRUE
+  SBG = 2
+  IgnoredSites = {"setup.ublk", "setup.rd", "ix.sb1", "ix.sb2", "cl.ufile"}
 INVARIANT Coherent
 INVARIANT DurableAfterFlush
 INVARIANT ErrorReported
@@ -15,6 +17,11 @@ INVARIANT Refines
 INVARIANT NoDupSlots
 INVARIANT LruWellFormed
 INVARIANT WriteThroughClean
+INVARIANT OuterCoherent
+INVARIANT OuterDurable
+INVARIANT OuterLogical
+INVARIANT OuterErrorReported
+INVARIANT OuterCloseClean
 PROPERTY RefinesIo
 POSTCONDITION TraceAccepted
 CHECK_DEADLOCK FALSE
